@@ -178,6 +178,9 @@ Definition s_publish : list str :=
   [[115;117;98;115;46;115;117;98;115;46;76;111;111;112]%N; [109;46;76;111;111;112]%N;
    [109;109;46;83;101;110;100;73;102;77;97;116;99;104]%N].
 
+Definition s_trysend_cases : list str :=
+  [[60;45;99;116;120;46;68;111;110;101;40;41]%N; [99;104;32;60;45;32;118]%N; [100;101;102;97;117;108;116]%N].
+
 Definition strs_eqb : list str -> list str -> bool := list_eqb str_eqb.
 
 Definition lock_row_ok (r : str * (bool * bool * bool)) : bool :=
@@ -194,6 +197,7 @@ Definition model_applicable : bool :=
   str_eqb g_sendifmatch_method s_Match &&
   g_sendifmatch_trysend &&
   g_trysend_has_default &&
+  strs_eqb g_trysend_cases s_trysend_cases &&
   g_serve_defers_unsuball &&
   g_serve_queue_cap_is_buflen &&
   strs_eqb g_recv_req_shape s_recv_req &&
